@@ -15,6 +15,11 @@ pub open spec fn agrees(r: Result<Value>, s: Res) -> bool {
         Res::Unk => true,
     }
 }
+/// a value with this kind (source locations are not semantic: no operation observes them)
+pub open spec fn vk(k: ValueKind) -> Value { Value { value: k, loc: None } }
+/// structural equality of values: `impl PartialEq for Value` ignores the source location and compares kinds
+pub uninterp spec fn kind_eq(a: ValueKind, b: ValueKind) -> bool;
+pub open spec fn val_eq(a: Value, b: Value) -> bool { kind_eq(a.value, b.value) }
 pub open spec fn vbool(b: bool) -> ValueKind { ValueKind::Lit(Literal::Bool(b)) }
 pub open spec fn vlong(i: i64) -> ValueKind { ValueKind::Lit(Literal::Long(i)) }
 pub open spec fn as_bool(v: Value) -> Option<bool> { match v.value { ValueKind::Lit(Literal::Bool(b)) => Some(b), _ => None } }
